@@ -47,7 +47,7 @@ func H_C06_parallel() {
 	}
 	plain := WithConfig(Dir(dir), Filename("f"))
 	upd := WithConfig(Dir(dir), Filename("f"), Update(true))
-	_ = isCI // start-up happens before the goroutines start
+	forceInit()
 	ts := [2]*mockT{newT(names[0]), newT(names[1])}
 	var wg sync.WaitGroup
 	wg.Add(2)
@@ -91,11 +91,11 @@ func H_C06_parallel() {
 	total := 0
 	if !fresh {
 		total = len(frame("TestZ - 1", "z"))
-		got, _, err := getPrevSnapshot("[TestZ - 1]", path)
+		got, _, err := refPrev("[TestZ - 1]", path)
 		vxrt.Assert(err == nil && got == "z", "C06:bystander-entry-intact")
 	}
 	for g := 0; g < 2; g++ {
-		got, _, err := getPrevSnapshot("["+names[g]+" - 1]", path)
+		got, _, err := refPrev("["+names[g]+" - 1]", path)
 		vxrt.Assert(err == nil, "C06:no-entry-lost")
 		vxrt.Assert(vxrt.Eq(got, wantBody[g]), "C06:entry-has-the-right-value")
 		total += len(frame(names[g]+" - 1", wantBody[g]))
@@ -116,7 +116,7 @@ func H_C06_twocalls() {
 		writeFile(path, frame("TestZ - 1", bystander()))
 	}
 	c := WithConfig(Dir(dir), Filename("f"))
-	_ = isCI
+	forceInit()
 	names := [2]string{"TestA", "TestB"}
 	ts := [2]*mockT{newT(names[0]), newT(names[1])}
 	var wg sync.WaitGroup
@@ -134,8 +134,8 @@ func H_C06_twocalls() {
 	ts[1].end()
 	for g := 0; g < 2; g++ {
 		vxrt.Assert(len(ts[g].errors) == 0 && len(ts[g].logs) == 2, "C06:create-outcome-as-serial")
-		one, _, err1 := getPrevSnapshot("["+names[g]+" - 1]", path)
-		two, _, err2 := getPrevSnapshot("["+names[g]+" - 2]", path)
+		one, _, err1 := refPrev("["+names[g]+" - 1]", path)
+		two, _, err2 := refPrev("["+names[g]+" - 2]", path)
 		vxrt.Assert(err1 == nil && err2 == nil, "C06:no-entry-lost")
 		vxrt.Assert(one == names[g]+"-one" && two == names[g]+"-two", "C06:entry-has-the-right-value")
 	}
@@ -153,7 +153,7 @@ func H_C06_three() {
 	writeFile(path, frame("TestB - 1", "old")+frame("TestZ - 1", bystander()))
 	plain := WithConfig(Dir(dir), Filename("f"))
 	upd := WithConfig(Dir(dir), Filename("f"), Update(true))
-	_ = isCI
+	forceInit()
 	ta, tb, tc := newT("TestA"), newT("TestB"), newT("TestC")
 	var wg sync.WaitGroup
 	wg.Add(3)
@@ -179,17 +179,17 @@ func H_C06_three() {
 	wg.Wait()
 	vxrt.Assert(len(ta.errors)+len(tb.errors)+len(tc.errors) == 0 && len(ta.logs) == 2 && len(tb.logs) == 1 && len(tc.logs) == 1, "C06:outcomes-as-serial")
 	for _, e := range [][2]string{{"TestA - 1", "a-one"}, {"TestA - 2", "a-two"}, {"TestB - 1", "new"}, {"TestC - 1", "c-one"}, {"TestZ - 1", bystander()}} {
-		got, _, err := getPrevSnapshot("["+e[0]+"]", path)
+		got, _, err := refPrev("["+e[0]+"]", path)
 		vxrt.Assert(err == nil, "C06:no-entry-lost")
 		vxrt.Assert(got == e[1], "C06:entry-has-the-right-value")
 	}
 }
 
-// bystander is the body of an entry nobody addresses. In the native twin it is large (4 MiB), which
+// bystander is the body of an entry nobody addresses. In a native stress replay it is large (4 MiB), which
 // only widens the window of a read-modify-write so that the stress replay has a chance to meet an
 // interleaving the engine found; the engine explores the same scenario with a one-byte body.
 func bystander() string {
-	if vxrt.Symbolic() {
+	if !vxrt.Stress() {
 		return "z"
 	}
 	b := make([]byte, 4<<20)
